@@ -16,7 +16,7 @@ def session_of(obs, lineno):
             skip -= 1          # the C lines a P step was expanded into by the harness
             continue
         out.append(l.split(" => ")[0])
-        skip = len(l.split()) - 1 if l.startswith("P ") else 0
+        skip = len(l.split()) - 1 if l.startswith("PAR ") else 0
     return out
 
 
@@ -57,6 +57,7 @@ def run_serve_suite(R, ctx, name, nsess, what, parallel=0, **genargs):
     for _ in range(parallel if R.tier == "quick" else parallel * 8):
         lines += servegen.parallel_session(rng)
     obs, d, crashes, se = judge(binary, lines)
+    core.negative_control(R, obs, "serve/" + name, skip=lambda l: not l.startswith("C ") or " => " not in l, group=True)
     kinds = collections.Counter(l.split()[0] for l in obs)
     statuses = collections.Counter(l.split()[-1] for l in obs if l.startswith("C ") and " => " in l)
     distinct = len(set(l.split(" => ")[0] for l in obs if l.startswith(("C ", "D "))))
